@@ -121,8 +121,8 @@ func (spc *realStatefulPodControl) UpdateStatefulPod(set *apps.StatefulSet, pod 
 		}
 
 		if updated, err := spc.podLister.Pods(set.Namespace).Get(pod.Name); err == nil {
-			if updated.UID != pod.UID {
-				// the name is held by another Pod by now: that one was never claimed for this set
+			if updated.UID != pod.UID && !metav1.IsControlledBy(updated, set) {
+				// the name is held by a Pod of somebody else by now: that one was never claimed for this set
 				return fmt.Errorf("pod %s/%s has been replaced (uid %s, now %s)", set.Namespace, pod.Name, pod.UID, updated.UID)
 			}
 			// make a copy so we don't mutate the shared cache
